@@ -147,7 +147,7 @@ var (
 
 //gosmt:stub (*github.com/go-task/task/v3.Executor).getRootNode
 func zzGetRootNode(e *task.Executor) (taskfile.Node, error) {
-	e.Dir = "/wd"
+	e.Dir = "/wd" // where the Taskfile was found (walking up from the invocation directory)
 	return nil, nil
 }
 
@@ -191,7 +191,9 @@ func zzOsEnviron() []string { return []string{"HOME=/h"} }
 func zzLookupEnv(k string) (string, bool) { return "", false }
 
 //gosmt:stub os.Getenv
-func zzGetenv(k string) string { return "" }
+func zzGetenv(k string) string { return zzEnvVars[k] }
+
+var zzEnvVars map[string]string
 
 const zzCLIAlphabet = "a='\"$\\ *{}."
 
